@@ -292,6 +292,64 @@ def run_cases(cases, bins, workdir, tag, want_model=True):
     return impl, model
 
 
+def selfcheck(cases, workdir, n):
+    """Extraction self-check: the extracted driver prints n of the cases together with the results it
+    computed as Gallina terms; coqc re-evaluates Interp.run_case on them with vm_compute and must agree."""
+    if not cases or n <= 0:
+        return dict(cases=0)
+    t0 = time.time()
+    step = max(1, len(cases) // n)
+    sample = cases[::step][:n]
+    d = os.path.join(workdir, "selfcheck")
+    shutil.rmtree(d, ignore_errors=True)
+    os.makedirs(d)
+    cf = os.path.join(d, "sample.cases")
+    with open(cf, "w") as f:
+        for c in sample:
+            f.write(c.text())
+    vf = os.path.join(d, "SelfCheck.v")
+    r = subprocess.run([MODEL_BIN, "--selfcheck", vf, str(len(sample)), cf], stdout=subprocess.PIPE, stderr=subprocess.PIPE, text=True)
+    if r.returncode != 0:
+        raise BuildError("extraction self-check: driver failed: " + r.stderr[-1000:])
+    r = subprocess.run(["timeout", "900", "coqc", "-noglob", "-Q", COQ, "BM", vf], stdout=subprocess.PIPE, stderr=subprocess.PIPE, text=True, cwd=d)
+    if r.returncode != 0:
+        raise BuildError("extraction self-check: Coq (vm_compute of Interp.run_case) and the extracted OCaml program "
+                         "disagree, or the generated file does not check: " + (r.stdout + r.stderr)[-1500:])
+    return dict(cases=len(sample), wall_s=round(time.time() - t0, 1),
+                how="driver --selfcheck prints ops and its own results as Gallina; `Goal run_case .. = ..; vm_compute; reflexivity` per case")
+
+
+COQCHK_ALLOWED = set()
+
+
+def coqchk(pid):
+    """Independent re-check of the compiled property file and everything it depends on; axioms listed."""
+    t0 = time.time()
+    r = subprocess.run(["timeout", "1500", "coqchk", "-o", "-silent", "-Q", COQ, "BM", "BM.Props." + pid],
+                       stdout=subprocess.PIPE, stderr=subprocess.STDOUT, text=True, cwd=COQ)
+    out = r.stdout
+    if r.returncode != 0:
+        raise BuildError("coqchk failed on BM.Props.%s: %s" % (pid, out[-1500:]))
+    axioms = []
+    grab = False
+    for line in out.splitlines():
+        if line.strip().startswith("* Axioms:"):
+            grab = True
+            rest = line.split("Axioms:", 1)[1].strip()
+            if rest and rest != "<none>":
+                axioms.append(rest)
+            continue
+        if grab:
+            if line.strip().startswith("*"):
+                grab = False
+            elif line.strip():
+                axioms.append(line.strip())
+    bad = [a for a in axioms if a not in COQCHK_ALLOWED]
+    if bad:
+        raise BuildError("coqchk reports axioms under BM.Props.%s: %s" % (pid, bad))
+    return dict(cmd="coqchk -o -silent -Q coq BM BM.Props." + pid, axioms=axioms or ["<none>"], wall_s=round(time.time() - t0, 1))
+
+
 # ------------------------------------------------------------------------------------------------
 # Verdicts
 # ------------------------------------------------------------------------------------------------
@@ -315,6 +373,8 @@ class Verdict:
         self.dist = {}
         self.known_hits = {}
         self.traces = 0
+        self.selfcheck = None
+        self.coqchk = None
 
     def count(self, key, n=1):
         self.dist[key] = self.dist.get(key, 0) + n
@@ -422,6 +482,10 @@ def finish(v, pid, obl, matcher, level, trusted, assumptions, rule, extra=None):
         input_distribution=dict(sorted(v.dist.items())), known_finding_hits=v.known_hits,
         predicate_failures=len(v.pred_fail), correspondence_failures=len(v.corr_fail),
     )
+    if v.selfcheck:
+        cov["extraction_selfcheck"] = v.selfcheck
+    if v.coqchk:
+        cov["coqchk"] = v.coqchk
     if extra:
         cov.update(extra)
     ev = dict(property_id=pid, tier=v.tier, seed=v.seed, level=level, coverage=cov,
